@@ -33,6 +33,8 @@ SET_KINDS = ("translate", "scale", "permute", "fresh", "badshape", "same")
 def _gen_new(rng, cfg):
     kind = rng.choice(cfg["kinds"])
     n = rng.randint(1, 12) if rng.random() < 0.4 else rng.randint(13, 120)
+    if rng.random() < 0.02:
+        n = rng.choice([700, 2500, 6000])  # (sizes are inputs too: a few grids are large)
     if kind in ("grid1", "grid2", "grid3", "oned", "periodic"):
         dim = {"grid1": 1, "grid2": 2, "grid3": 3, "oned": 1}.get(kind) or rng.choice([1, 2, 3])
         # (a 1-D PeriodicGrid without lattice vectors cannot be constructed today - a C11 matter, not generated here)
